@@ -11,7 +11,7 @@ RULE = ("random sessions of 1-6 bufferevents (TCP/AF_UNIX connect ok/refused/inj
         "where read conditions observed at the read syscalls of several deferred bufferevents must be delivered in that order; "
         "non-trivial = at least one user callback ran; distinct = hash of the script")
 STEPS = [
-    dict(flavor="asan", harness="h_bev2", args=["--mode", "lifecycle"], cases=dict(quick=1500, thorough=60000),
+    dict(flavor="asan", harness="h_bev2", args=["--mode", "lifecycle"], cases=dict(quick=1500, thorough=40000),
          timeout=dict(quick=600, thorough=3000)),
 ]
 REG = dict(
@@ -26,7 +26,7 @@ REG = dict(
 
 def run(tier, seed):
     return generic.run_spec("C19", tier, seed, STEPS, RULE,
-                            required=["connected_events", "connect_errors_reported", "dns_errors_reported", "lookups_cancelled_by_free",
+                            required=["connected_events", "connect_errors_reported", "dns_errors_reported", "lookups_cancelled_by_free", "lookups_cancelled_by_setfd", "server_spoke_first",
                                       "eof_events", "error_events", "freed_inside_callback", "callbacks_cleared", "read_callbacks",
                                       "write_callbacks", "deferred_batches_in_order", "hostname_connects", "subjects_pair", "subjects_filter"],
                             assumptions=["callback order within one deferred batch (CONNECTED, read, write, event) is the library's documented choice; "
